@@ -33,7 +33,7 @@ Definition K (s : sstate) (tr : list message) : Prop :=
 
 Lemma K_keeps s s' tr : K s tr -> keeps s s' -> K s' tr.
 Proof.
-  intros (Hf & (Hc & (rest & Hs)) & K1 & K2 & K3) (C & S & P & R).
+  intros (Hf & (Hc & (rest & Hs)) & K1 & K2 & K3) (C & S & P & R & _).
   split; [exact Hf|]. split.
   { split.
     - intro k. destruct (P k) as (e & E & F). rewrite E. apply Forall_app. split; [apply Hc|exact F].
